@@ -79,10 +79,11 @@ const (
 	fReplaceHTTP
 	fMiddleware
 	fSetWriter
+	fFreshContext
 	nBehaviours
 )
 
-var behName = []string{"pass", "attr", "replace-request", "replace-response", "replace-http-request", "middleware-adapter", "set-response-writer"}
+var behName = []string{"pass", "attr", "replace-request", "replace-response", "replace-http-request", "middleware-adapter", "set-response-writer", "http-request-on-fresh-context"}
 
 func mkFilter(name string, beh int) restful.FilterFunction {
 	if beh == fMiddleware {
@@ -130,6 +131,10 @@ func mkFilter(name string, beh int) restful.FilterFunction {
 			req.Request = req.Request.WithContext(context.WithValue(req.Request.Context(), name, 1))
 		case fSetWriter:
 			resp.ResponseWriter = &wrapW{resp.ResponseWriter}
+		case fFreshContext:
+			// the http.Request is re-based on a context of the filter's own making (only the harness's log travels along);
+			// attributes live in the restful.Request and are untouched by that
+			req.Request = req.Request.WithContext(context.WithValue(context.Background(), fLogKey{}, lg))
 		}
 		lg.add("pass", name, tupleOf(req, resp))
 		chain.ProcessFilter(req, resp)
@@ -367,7 +372,7 @@ func genBehs(r *core.Rand, max int) []int {
 
 func c06(ctx *core.Ctx) {
 	quietLogs()
-	ctx.Rule("generated configurations: 0-5 container filters, two WebServices with 0-3 service filters, two routes and a pair of representation twins (same method and path, JSON vs XML) with 0-3 route filters each, every filter named after its owner, behaviour per filter in {pass, set attribute, replace Request, replace Response, replace http.Request, HttpMiddlewareHandlerToFilter around a wrapping middleware, set ResponseWriter}; any filter short-circuits on demand of the request; service / container filters registered before or after the routes / services; handlers that panic (recovery on: nothing in the chain may run a second time). 40-request sequences (routed, 404/405 routing failures, HandleWithFilter) run sequentially on one container and then from 16 goroutines (race detector on). Offline checker per request: exact enter/pass/exit sequence = prefix of [container.., service.., route.., handler] with reversed exits, each once, hand-over identity of (Request, Response, http.Request, writer, attributes). Non-trivial = a request whose chain has >= 2 elements; distinct by (filter counts per level, short-circuit position, request kind, behaviours on the path).")
+	ctx.Rule("generated configurations: 0-5 container filters, two WebServices with 0-3 service filters, two routes and a pair of representation twins (same method and path, JSON vs XML) with 0-3 route filters each, every filter named after its owner, behaviour per filter in {pass, set attribute, replace Request, replace Response, replace http.Request (derived or on a fresh context), HttpMiddlewareHandlerToFilter around a wrapping middleware, set ResponseWriter}; any filter short-circuits on demand of the request; service / container filters registered before or after the routes / services; handlers that panic (recovery on: nothing in the chain may run a second time). 40-request sequences (routed, 404/405 routing failures, HandleWithFilter) run sequentially on one container and then from 16 goroutines (race detector on). Offline checker per request: exact enter/pass/exit sequence = prefix of [container.., service.., route.., handler] with reversed exits, each once, hand-over identity of (Request, Response, http.Request, writer, attributes). Non-trivial = a request whose chain has >= 2 elements; distinct by (filter counts per level, short-circuit position, request kind, behaviours on the path).")
 	ctx.Assume("a filter that replaces the Request copies the attributes it knows about (the API offers no enumeration)")
 	configs := ctx.N(250, 20000)
 	for ci := 0; ci < configs; ci++ {
